@@ -56,8 +56,8 @@ def evaluate(stats, files, main, klass, cli=False, repo=None):
     return sigs
 
 
-def check_case(files, main):
-    r = emb.compile_files(files, main, limit_s=LIMIT_S)
+def check_case(files, main, limit_s=None):
+    r = emb.compile_files(files, main, limit_s=limit_s or LIMIT_S)
     check_case.last = r
     out = []
     if r.exc:
@@ -165,7 +165,7 @@ def build_case(rnd, model_source=None):
         if rnd.random() < 0.5:
             files["imp.emb"] = IMPORTED
         return "grammar-derived", files, "m.emb"
-    if k < 0.62 or model_source is None:
+    if k < 0.60 or model_source is None:
         files, main = rnd.choice(corpus_sets())
         files = dict(files)
         donors = [f[m] for f, m in corpus_sets()[:12]]
@@ -174,7 +174,28 @@ def build_case(rnd, model_source=None):
         if rnd.random() < 0.1:
             files = {k: v for k, v in files.items() if k == main or rnd.random() < 0.5}  # missing import
         return "corpus-mutation", files, main
-    if k < 0.68:
+    if k < 0.72:
+        snips = emb.test_snippets()
+        t = rnd.choice(snips)
+        if rnd.random() < 0.6:
+            t = textmut.mutate(rnd, t, snips[:40], n_mut=rnd.choice([1, 1, 2]))
+        return "test-snippet", {"m.emb": t, "imp.emb": IMPORTED}, "m.emb"
+    if k < 0.77:
+        from embgen import depgraph
+
+        g = depgraph.random_graph(rnd)
+        kk = rnd.random()
+        if kk < 0.6:
+            t = depgraph.struct_program(rnd, g)[0]
+        elif kk < 0.8:
+            t = depgraph.enum_program(rnd, g)[0]
+        else:
+            files, main = depgraph.import_program(rnd, g)
+            return "depgraph", files, main
+        if rnd.random() < 0.4:
+            t = textmut.mutate(rnd, t, n_mut=1)
+        return "depgraph", {"m.emb": t}, "m.emb"
+    if k < 0.81:
         d = rnd.choice([5, 10, 20, 30, 40])
         e = textmut.deep_expression(rnd, d)
         text = "enum Ee:\n  AA = 1\nstruct Foo:\n  0 [+1]  UInt  x\n  let y = %s\n  if %s == 0:\n    1 [+1]  UInt  z\n" % (e, e)
@@ -205,8 +226,12 @@ def shard(idx, seed, n, cli_n, tier):
 def minimise(sig, case, detail):
     files, main = dict(case["files"]), case["main"]
 
+    slow = sig.get("exc") == "Timeout"
+    if slow:
+        return None, None  # every probe would cost the full time limit
+
     def fails(fs):
-        return any(s == sig for s, _ in check_case(fs, main))
+        return any(s == sig for s, _ in check_case(fs, main, limit_s=20))
 
     if not fails(files):
         return None, None
